@@ -178,7 +178,8 @@ def cmake_real(args: T.Tuple[T.List[Cmd], T.List[str], T.List[str], str, T.List[
                            stdout=subprocess.PIPE, stderr=subprocess.STDOUT, text=True, errors='replace')
         if not tf.exists() or END_MARK not in p.stdout:
             raise common.MachineryError('cmake did not process the generated project:\n' + p.stdout[-2500:])
-        if re.search(r'CMake Error at CMakeLists\.txt:\d+ \((?!message)', p.stdout):
+        # errors while the commands were processed (generate-time errors come after the marker and do not matter)
+        if re.search(r'CMake Error at CMakeLists\.txt:\d+ \((?!message)', p.stdout.split(END_MARK)[0]):
             raise common.MachineryError('the generated command sequence is not valid CMake:\n' + p.stdout[-2500:])
         text = tf.read_text(errors='replace')
         # cut at the end marker: what follows is the witness dump, not part of the command sequence
